@@ -4,5 +4,6 @@ CONSTANTS
   Seed = 1
 INVARIANT T_Hull
 INVARIANT T_InBBox
+INVARIANT T_Ends
 INVARIANT EmitC
 CHECK_DEADLOCK FALSE
